@@ -347,6 +347,9 @@ def _type_ops():
         ("malformed-enum-value", "ordinal-float", used_enum_mut(lambda e, r, sp: set_ordinal(e, r, sp, "1.5") if e.values else False)),
         ("malformed-enum-value", "ordinal-empty", used_enum_mut(lambda e, r, sp: set_ordinal(e, r, sp, "") if e.values else False)),
         ("malformed-enum-value", "duplicate-ordinal", used_enum_mut(lambda e, r, sp: e.values.append(("ZzDup", e.values[0][1], None)) if e.values else False)),
+        ("malformed-enum-value", "duplicate-ordinal-leading-zero", used_enum_mut(lambda e, r, sp: e.values.append(("ZzDup", "0%d" % int(e.values[0][1]), None)) if e.values and isinstance(e.values[0][1], int) else False)),
+        ("malformed-enum-value", "duplicate-ordinal-plus-sign", used_enum_mut(lambda e, r, sp: e.values.append(("ZzDup", "+%d" % int(e.values[-1][1]), None)) if e.values and isinstance(e.values[-1][1], int) else False)),
+        ("malformed-enum-value", "duplicate-ordinal-padded", used_enum_mut(lambda e, r, sp: e.values.append(("ZzDup", " %d " % int(e.values[0][1]), None)) if e.values and isinstance(e.values[0][1], int) else False)),
         ("malformed-enum-value", "duplicate-name", used_enum_mut(lambda e, r, sp: e.values.append((e.values[0][0], 251, None)) if e.values and all(v[1] != 251 for v in e.values) else False)),
         ("malformed-enum-value", "missing-name", used_enum_mut(lambda e, r, sp: e.values.append((None, 250, None)) if all(v[1] != 250 for v in e.values) else False)),
         ("malformed-underlying-type", "enum-type-string", used_enum_mut(lambda e, r, sp: setattr(e, "type", "string"))),
